@@ -53,6 +53,11 @@ let register () =
   Drv.register "gopath.split" (fun a -> match a with
     | [p] -> let (d, f) = GoPath.split_path (bytes_of_hex p) in hex_of_bytes d ^ " " ^ hex_of_bytes f
     | _ -> "ERR args");
+  (* clean base dir split-dir split-file in one round trip *)
+  Drv.register "gopath.all" (fun a -> match a with
+    | [p] -> let b = bytes_of_hex p in let (d, f) = GoPath.split_path b in
+        Stdlib.String.concat " " [hex_of_bytes (GoPath.clean b); hex_of_bytes (GoPath.base b); hex_of_bytes (GoPath.dir b); hex_of_bytes d; hex_of_bytes f]
+    | _ -> "ERR args");
   Drv.register "gopath.join" (fun a -> match a with
     | [es] -> hex_of_bytes (GoPath.join (Stdlib.List.map elem_of (split_on ',' es)))
     | _ -> "ERR args");
